@@ -1,7 +1,7 @@
 (* Checked accesses: the Go operations that panic at run time when their operand is out of range or nil, as explicit
    [Panic site] results.  The checked transcriptions (Model/SrtC.v, Model/VttC.v) use them behind the same guards as
    the Go code, so that a guard missing in the model makes [Panic] reachable.  Definitions only. *)
-From Coq Require Import List NArith Bool Arith.
+From Coq Require Import List NArith Bool Arith Lia.
 From Astisub Require Import Kit.Base.
 Import ListNotations.
 
@@ -34,3 +34,25 @@ Lemma somes_map_Some {A} (l : list A) : somes (map Some l) = l.
 Proof. induction l as [|x r IH]; [reflexivity|]. cbn [map somes]. rewrite IH. reflexivity. Qed.
 Lemma somes_app {A} (a b : list (option A)) : somes (a ++ b) = somes a ++ somes b.
 Proof. induction a as [|[x|] r IH]; cbn [app somes]; [reflexivity | rewrite IH; reflexivity | exact IH]. Qed.
+
+(* ---- the Go int len(l)-1 (second audit, N6) ----
+   With nat subtraction 0 - 1 = 0, so [slice_to l (length l - 1) site] is [Ok []] for the empty list, where the Go
+   expression l[:len(l)-1] has the bound -1 and panics (slice bounds out of range [:-1]): a site written that way can
+   never fire and the guard in front of it carries nothing.  The predecessor is therefore a checked operation itself. *)
+(* the Go int n-1 used as an index or slice bound: -1, hence out of range whatever the slice, when n = 0 *)
+Definition idx_pred (n : nat) (site : N) : res nat := match n with O => Panic site | S k => Ok k end.
+(* l[:len(l)-1] *)
+Definition slice_to_pred {A} (l : list A) (site : N) : res (list A) :=
+  do k <- idx_pred (length l) site; slice_to l k site.
+Lemma slice_to_pred_nil {A} site : slice_to_pred (@nil A) site = Panic site.
+Proof. reflexivity. Qed.
+Lemma slice_to_pred_app1 {A} (P : list A) x site : slice_to_pred (P ++ [x]) site = Ok P.
+Proof.
+  unfold slice_to_pred. rewrite app_length. cbn [length]. rewrite Nat.add_1_r. cbn [idx_pred bind]. unfold slice_to.
+  rewrite app_length. cbn [length]. destruct (Nat.leb (length P) (length P + 1)) eqn:E; [|apply Nat.leb_gt in E; lia].
+  rewrite firstn_app, Nat.sub_diag, firstn_all. cbn [firstn]. rewrite app_nil_r. reflexivity.
+Qed.
+Lemma slice_to_pred_removelast {A} (l : list A) site : l <> [] -> slice_to_pred l site = Ok (removelast l).
+Proof.
+  intros H. destruct (exists_last H) as (P & x & ->). rewrite slice_to_pred_app1, removelast_last. reflexivity.
+Qed.
